@@ -26,6 +26,19 @@ func isStructNamed(t types.Type) bool {
 	return ok && named
 }
 
+// isFlagType: a bool, or a small named integer type used as a two-valued mode (its zero value standing for false).
+func isFlagType(t types.Type) bool {
+	b, ok := t.Underlying().(*types.Basic)
+	if !ok {
+		return false
+	}
+	if b.Kind() == types.Bool {
+		return true
+	}
+	_, named := t.(*types.Named)
+	return named && b.Info()&types.IsInteger != 0
+}
+
 func isIfaceWith(method string) func(types.Type) bool {
 	return func(t types.Type) bool {
 		it, ok := t.Underlying().(*types.Interface)
@@ -45,11 +58,11 @@ func isIfaceWith(method string) func(types.Type) bool {
 var roleTable = map[string][]roleSpec{
 	"bufiox.DefaultReader": {
 		{Canon: "buf", Type: "[]byte"}, {Canon: "rd", Pred: isIfaceWith("Read")}, {Canon: "ri", Type: "int"},
-		{Canon: "err", Type: "error"}, {Canon: "pendingBuf", Type: "[][]byte"}, {Canon: "bufReadOnly", Type: "bool"},
+		{Canon: "err", Type: "error"}, {Canon: "pendingBuf", Type: "[][]byte"}, {Canon: "bufReadOnly", Pred: isFlagType},
 	},
 	"bufiox.DefaultWriter": {
 		{Canon: "buf", Type: "[]byte"}, {Canon: "wd", Pred: isIfaceWith("Write")}, {Canon: "err", Type: "error"},
-		{Canon: "pendingBuf", Type: "[][]byte"}, {Canon: "disableCache", Type: "bool"},
+		{Canon: "pendingBuf", Type: "[][]byte"}, {Canon: "disableCache", Pred: isFlagType},
 	},
 	"bufiox.fakeIOWriter": {{Canon: "bw", Type: "*BytesWriter"}},
 	"bufiox.BytesWriter": {
